@@ -65,3 +65,9 @@ def run(ctx, rep):
     for key, v in sorted(d.viol.items()):
         if v['rule'] in mine:
             rep.violation(v['rule'], key, v['where'], v['msg'], {'path': v['chain']})
+    # C17.4: no step that can fail lies between the release of a cluster and the removal of the mapping it was taken from
+    rep.rule('C17.4', 'a cluster taken from a live mapping is released only after the mapping was changed (an error in between leaves a mapped cluster without refcount)')
+    live = [(k, v) for k, v in d.viol.items() if v['rule'] == 'C04.O4' and ':LIVE(' in k]
+    rep.ob('C17.4', 'releases of clusters taken from live mappings', not live, '%d release(s) precede the unmapping' % len(live) if live else 'every such release follows the unmapping')
+    for k, v in sorted(live):
+        rep.violation('C17.4', k.replace('C04.O4', 'C17.4'), v['where'], v['msg'], {'path': v['chain']})
